@@ -49,6 +49,15 @@ def _nodes(body, crate):
         t = blk['term']
         if t['k'] == 'call' and not t['dest']['p']:
             ndefs[t['dest']['l']] = ndefs.get(t['dest']['l'], 0) + 1
+    # plain moves of an iterator value (argument passing of an inlined helper, `let it = chain;`)
+    for bi, blk in enumerate(body.blocks):
+        if blk['cleanup']:
+            continue
+        for st in blk['stmts']:
+            if st['k'] == 'assign' and not st['place']['p'] and st['rv']['k'] == 'use' and ndefs.get(st['place']['l'], 0) == 1:
+                a = _plain(st['rv']['op'])
+                if a is not None and 'move' in st['rv']['op']:
+                    out[st['place']['l']] = ('id', a, None)
     for bi, t in body.calls():
         if t['dest']['p'] or ndefs.get(t['dest']['l'], 0) != 1 or t['target'] is None:
             continue
@@ -82,9 +91,18 @@ def _lazy(nodes, l, depth=0):
 
 def _ref_target(body, bi, local):
     """the place X when `local = &mut X` is assigned in block bi"""
-    for st in body.blocks[bi]['stmts']:
-        if st['k'] == 'assign' and st['place']['l'] == local and not st['place']['p'] and st['rv']['k'] == 'ref' and not st['rv']['place']['p']:
-            return st['rv']['place']['l']
+    for _ in range(3):
+        nxt = None
+        for st in body.blocks[bi]['stmts']:
+            if st['k'] == 'assign' and st['place']['l'] == local and not st['place']['p'] and st['rv']['k'] == 'ref':
+                rp = st['rv']['place']
+                if not rp['p']:
+                    return rp['l']
+                if rp['p'] == ['deref']:
+                    nxt = rp['l']          # a reborrow `&mut *r`
+        if nxt is None:
+            return None
+        local = nxt
     return None
 
 
@@ -122,7 +140,8 @@ class _Gen:
         cont(block, elem local, elem ty) continues in `block` with the element; none_blk is jumped to on exhaustion"""
         n = self.nodes.get(l) if depth < 8 else None
         if n is not None and n[0] == 'id':
-            self.neutralise(n[2])
+            if n[2] is not None:
+                self.neutralise(n[2])
             return self.pull(n[1], span, restart, none_blk, cont, depth + 1)
         if n is not None and n[0] == 'enumerate' and _lazy(self.nodes, n[1]):
             c = self.counters.get(l)
